@@ -21,8 +21,15 @@ type C08Case struct {
 func drawC08(t *rapid.T) *C08Case {
 	c := &C08Case{}
 	R := rapid.SampledFrom([]int64{30, 1000, 100000, 1 << 27}).Draw(t, "R")
+	// rapid favours small magnitudes, which makes thin parallelograms; half the cases
+	// hash the drawn values into generic position instead
+	spread := rapid.Bool().Draw(t, "spread")
 	pt := func(r int64) P {
-		return P{X: rapid.Int64Range(-r, r).Draw(t, "x"), Y: rapid.Int64Range(-r, r).Draw(t, "y")}
+		q := P{X: rapid.Int64Range(-r, r).Draw(t, "x"), Y: rapid.Int64Range(-r, r).Draw(t, "y")}
+		if spread {
+			q = P{X: spreadCoord(q.X, r), Y: spreadCoord(q.Y, r)}
+		}
+		return q
 	}
 	// pattern: 3-10 vertices, convex (star with equal radii) or arbitrary, either orientation
 	np := rapid.IntRange(3, 10).Draw(t, "np")
@@ -45,6 +52,12 @@ func drawC08(t *rapid.T) *C08Case {
 		case k == 1 && len(c.Path) > 1: // collinear continuation
 			a, b := c.Path[len(c.Path)-2], c.Path[len(c.Path)-1]
 			c.Path = append(c.Path, P{X: clampR(2*b.X-a.X, R), Y: clampR(2*b.Y-a.Y, R)})
+		case k == 2 && len(c.Path) > 0: // parallel to a pattern edge: a zero-area parallelogram
+			j := rapid.IntRange(0, len(c.Pattern)-1).Draw(t, "parEdge")
+			u, v := c.Pattern[j], c.Pattern[(j+1)%len(c.Pattern)]
+			m := rapid.Int64Range(-3, 3).Draw(t, "parMul")
+			b := c.Path[len(c.Path)-1]
+			c.Path = append(c.Path, P{X: clampR(b.X+m*(v.X-u.X), R), Y: clampR(b.Y+m*(v.Y-u.Y), R)})
 		default:
 			c.Path = append(c.Path, pt(R))
 		}
@@ -171,7 +184,13 @@ func judgeC08(c *C08Case, cx *Ctx) *Violation {
 		}
 	}
 	openSegs := !c.Closed && len(dedupLine(c.Path)) >= 3
-	cx.St.Eval(c, nIn > 0 && nOut > 0 && (!convex || openSegs || c.Closed), "op:"+sumName(c.Diff), boolLabel("closed", c.Closed), boolLabel("convex-pattern", convex), pointsLabel(len(c.Path)))
+	if classCache == 0 {
+		classCache = 1
+		if in, _ := kit.NearDegenerate([]Paths{quads}, true, nearTol); in {
+			classCache = 2
+		}
+	}
+	cx.St.Eval(c, nIn > 0 && nOut > 0 && (!convex || openSegs || c.Closed), "op:"+sumName(c.Diff), boolLabel("quads-near-degenerate", classCache == 2), boolLabel("closed", c.Closed), boolLabel("convex-pattern", convex), pointsLabel(len(c.Path)))
 	cx.St.Count("mismatch_attributed_to_listed_engine_finding", int64(att))
 	return nil
 }
